@@ -224,6 +224,8 @@ func runC19(c *Ctx) {
 		}
 	}
 	c.Check(okLine, "R5", "attribute-line:present", p.Pos(tc.Pos()), "line format found", "cannot find the attribute line format")
+	c19MacroScope(c)
+	c19ArgPrefix(c)
 }
 
 // c19Escapers (R2): per platform.
@@ -566,4 +568,96 @@ func variadicOrdered(v ssa.Value) []ssa.Value {
 		out = append(out, byIdx[i])
 	}
 	return out
+}
+
+// c19MacroScope (R6): Git reads [attr] macro definitions only from the top-level .gitattributes (and the info, global
+// and system files), never from a .gitattributes in a sub-directory. `track` decides "already supported" from the
+// attributes Git LFS computes itself, so it must scope macros the same way: for the files discovered in the working
+// tree the read-macros flag is the test `path == ".gitattributes"` (repository-relative path, not base name).
+func c19MacroScope(c *Ctx) {
+	p := c.P
+	fn := p.Fn("git", "findAttributeFiles")
+	if fn == nil {
+		c.Missing("R6", "git.findAttributeFiles", "not found")
+		return
+	}
+	loops := Loops(fn)
+	n := 0
+	for _, b := range fn.Blocks {
+		for _, in := range b.Instrs {
+			st, ok := in.(*ssa.Store)
+			if !ok {
+				continue
+			}
+			fa, ok := st.Addr.(*ssa.FieldAddr)
+			if !ok {
+				continue
+			}
+			if t, f := fieldAddrName(fa); t != "git.attrFile" || f != "readMacros" {
+				continue
+			}
+			n++
+			if LoopOf(loops, b) == nil {
+				bv, isC := ConstBool(st.Val)
+				c.Check(isC && bv, "R6", fmt.Sprintf("macros:fixed-file#%d", n), p.InstrPos(st), "info/global/system attribute files may define macros", "the macro flag of a fixed attributes file is not the constant true")
+				continue
+			}
+			good := false
+			if op, x, y, ok := BinCmp(st.Val); ok && op == token.EQL {
+				for _, pr := range [][2]ssa.Value{{x, y}, {y, x}} {
+					if _, f, _, isF := FieldOf(pr[0]); isF && f == "FullPath" {
+						if s, isS := ConstString(pr[1]); isS && s == ".gitattributes" {
+							good = true
+						}
+					}
+				}
+			}
+			c.Check(good, "R6", fmt.Sprintf("macros:top-level-only#%d", n), p.InstrPos(st), "working-tree attribute files define macros only at the top level (full path == .gitattributes)",
+				"macro definitions are read from .gitattributes files below the top level ("+describeValue(p, st.Val)+"): Git ignores [attr] lines there, so Git LFS takes a pattern for tracked (`already supported`) that Git does not")
+		}
+	}
+	c.AtLeast("R6", "stores of the read-macros flag", n, 2)
+}
+
+// c19ArgPrefix (R7): the pattern written is the argument minus one leading "./" (or ".\\"): the helper that removes
+// the current-directory prefix returns its argument or strings.TrimPrefix of it by that constant prefix — not a
+// cut-set trim, which eats every leading '.' and '/' ("/x" loses its anchoring, ".cache" its dot).
+func c19ArgPrefix(c *Ctx) {
+	p := c.P
+	fn := p.Fn("tools", "TrimCurrentPrefix")
+	if fn == nil {
+		c.Missing("R7", "tools.TrimCurrentPrefix", "not found")
+		return
+	}
+	n := 0
+	for _, r := range ReturnsOf(fn) {
+		for _, v := range ReturnValues(r, 0) {
+			n++
+			ok := false
+			what := describeValue(p, v)
+			if _, isP := Unwrap(v).(*ssa.Parameter); isP {
+				ok = true
+			}
+			if cc, _, isRes := CallResult(v); isRes {
+				what = CalleeName(cc.Common())
+				if what == "strings.TrimPrefix" {
+					if _, isP := Unwrap(cc.Call.Args[0]).(*ssa.Parameter); isP {
+						if s, isS := ConstString(cc.Call.Args[1]); isS && (s == "./" || s == ".\\") {
+							ok = true
+						}
+					}
+				}
+			}
+			c.Check(ok, "R7", fmt.Sprintf("arg-normalisation:one-prefix-only#%d", n), p.InstrPos(r), "removes exactly one leading ./ or .\\", "the current-directory prefix is removed with "+what+": more than one leading \"./\" — e.g. every leading '.' and '/' — is taken off the pattern, so `/x` is written unanchored and `.dir/x` as `dir/x`")
+		}
+	}
+	c.AtLeast("R7", "results of TrimCurrentPrefix", n, 1)
+	// and track/untrack normalise their arguments through it
+	for _, name := range []string{"trackCommand", "removePath"} {
+		f := p.Fn("commands", name)
+		if f == nil {
+			continue
+		}
+		c.Check(len(CallsInDeep(f, "tools.TrimCurrentPrefix")) > 0, "R7", "arg-normalisation:used-by:"+name, p.Pos(f.Pos()), "arguments are normalised with TrimCurrentPrefix", name+" no longer normalises its argument with TrimCurrentPrefix")
+	}
 }
